@@ -1084,20 +1084,25 @@ class Node:
         # if mapper is None:
         #     mapper = self._tree.DEFAULT_DESERIALZATION_MAPPER
         assert not self._children
-        for item in obj:
-            if mapper:
-                # mapper may add item['data_id']
-                # data = mapper(parent=self, item=item)
-                data_obj = call_mapper(mapper, self, item)
-            else:
-                data_obj = item["data"]
+        try:
+            for item in obj:
+                if mapper:
+                    # mapper may add item['data_id']
+                    # data = mapper(parent=self, item=item)
+                    data_obj = call_mapper(mapper, self, item)
+                else:
+                    data_obj = item["data"]
 
-            child = self.append_child(
-                data_obj, data_id=item.get("data_id"), node_id=item.get("node_id")
-            )
-            child_items = item.get("children")
-            if child_items:
-                child.from_dict(child_items, mapper=mapper)
+                child = self.append_child(
+                    data_obj, data_id=item.get("data_id"), node_id=item.get("node_id")
+                )
+                child_items = item.get("children")
+                if child_items:
+                    child.from_dict(child_items, mapper=mapper)
+        except Exception:
+            # Do not leave a half-built branch behind
+            self.remove_children()
+            raise
         return
 
     def _visit_pre(self, callback, memo) -> None:
